@@ -358,7 +358,7 @@ def image_offsets(reach):
     return [np.array(s) for s in itertools.product(r, r, r)]
 
 
-def enumerate_candidates(cell, els, pos, pat_els, pat_pos, tol_d, reach=1, cap=40000):
+def enumerate_candidates(cell, els, pos, pat_els, pat_pos, tol_d, reach=1, cap=6000, max_work=400000):
     """All ordered tuples ((unit index, image vector), ...) whose elements equal the pattern's, whose first atom is in
     the home image, whose unit indices are distinct and whose pair distances reproduce the pattern's within tol_d.
     Returns (list of (indices tuple, positions array), complete flag)."""
@@ -384,6 +384,7 @@ def enumerate_candidates(cell, els, pos, pat_els, pat_pos, tol_d, reach=1, cap=4
     home = [k for k in range(len(img_idx)) if not offs[k // len(pos)].any()]
     out = []
     complete = True
+    work = 0
     for k0 in home:
         if img_el[k0] != pat_els[0]:
             continue
@@ -396,6 +397,11 @@ def enumerate_candidates(cell, els, pos, pat_els, pat_pos, tol_d, reach=1, cap=4
             cpos = img_pos[cand]
             new = []
             for tup in partial:
+                work += len(cand) * (len(tup) + 1)
+                if work > max_work:
+                    # bounded effort: a world whose candidate space is this large gets no exhaustive reference
+                    complete = False
+                    break
                 ok = np.ones(len(cand), bool)
                 for j, kj in enumerate(tup):
                     dj = np.linalg.norm(cpos - img_pos[kj], axis=1)
